@@ -95,11 +95,17 @@ Fixpoint nodup_b (l : list N) : bool := match l with [] => true | x :: t => negb
 Fixpoint list_eqb (a b : list N) : bool :=
   match a, b with [] , [] => true | x :: a', y :: b' => (x =? y) && list_eqb a' b' | _, _ => false end.
 
+(* a block for which the application installed no ApplyEvent listener: nothing is observed about its
+   delivery (the driver encodes this as the one-element list [unlistened]); its events are confirmed all the same *)
+Definition unlistened : N := 2 ^ 256.
+Definition is_unlistened (b : block) : bool := match b_delivered b with [x] => x =? unlistened | _ => false end.
+Definition fresh_of (G : graph) (del : list N) (b : block) : list N :=
+  filter (fun x => negb (mem x del)) (g_anc G (b_atropos b)).
 (* C02 for one block, the k-th of its epoch *)
 Definition c02_block (G : graph) (k : N) (del : list N) (b : block) : bool :=
   let A := g_anc G (b_atropos b) in
   let fresh := filter (fun x => negb (mem x del)) A in
-  nodup_b (b_delivered b) && subset (b_delivered b) fresh && subset fresh (b_delivered b) &&
+  (is_unlistened b || (nodup_b (b_delivered b) && subset (b_delivered b) fresh && subset fresh (b_delivered b))) &&
   match g_get G (b_atropos b) with
   | Some s => (s_spf s <? k) && (k <=? a_frame (s_ev s))         (* the Atropos is a root of frame k *)
   | None => false end.
@@ -120,7 +126,8 @@ Fixpoint blocks_walk (c02 c03 : bool) (k : chk) (bl : list block) : bool * chk :
     | Some nv => (ok && match t with [] => true | _ => false end, chk_new_epoch (k_epoch k + 1) nv)
     | None =>
       let '(ok', k') := blocks_walk c02 c03
-            {| k_G := k_G k; k_vals := k_vals k; k_epoch := k_epoch k; k_nb := nb; k_del := b_delivered b ++ k_del k |} t in
+            {| k_G := k_G k; k_vals := k_vals k; k_epoch := k_epoch k; k_nb := nb;
+               k_del := (if is_unlistened b then fresh_of (k_G k) (k_del k) b else b_delivered b) ++ k_del k |} t in
       (ok && ok', k')
     end
   end.
